@@ -43,9 +43,18 @@ def Scn.isMsgItem (scn : Scn) (i : Nat) : Bool :=
   | some it => decide (epIdx scn.items < i) && isMessage it.fe.denote
   | none => false
 
+/-- the message items of `l` (whose head has index `i`) with their indices: events after the endpoint event
+(index `ep`), of type "message", with data -/
+def msgFrom (ep : Nat) : Nat → List Item → List (Nat × Payload)
+  | _, [] => []
+  | i, it :: t => (if decide (ep < i) && isMessage it.fe.denote then [(i, it.payload)] else []) ++ msgFrom ep (i + 1) t
+
+/-- the message items with index in `[a, b)` -/
+def newMsgs (scn : Scn) (a b : Nat) : List (Nat × Payload) :=
+  msgFrom (epIdx scn.items) a ((scn.items.take b).drop a)
+
 /-- the payloads of the message items among the first `n` items -/
-def Scn.msgsUpTo (scn : Scn) (n : Nat) : List Payload :=
-  (List.range n).filterMap (fun i => if scn.isMsgItem i then (scn.items[i]?).map (·.payload) else none)
+def Scn.msgsUpTo (scn : Scn) (n : Nat) : List Payload := (newMsgs scn 0 n).map (·.2)
 
 /-- an event the scanner dispatches but that is NOT a message (another type, or no data) was received:
 the shape of F41 (engine-local name sseclient-F40) -/
@@ -132,9 +141,6 @@ structure Ctx where
   n' : Nat                      -- items received after the step
   live : List (Nat × Payload)   -- the message items newly received while the connection was usable (index, payload)
   excused' : Bool               -- excused after the step
-
-def newMsgs (scn : Scn) (n n' : Nat) : List (Nat × Payload) :=
-  ((List.range n').drop n).filterMap (fun i => if scn.isMsgItem i then (scn.items[i]?).map (fun it => (i, it.payload)) else none)
 
 def livePrefix (l : List (Nat × Payload)) : List (Nat × Payload) := l.takeWhile (fun p => !excusing p.2)
 
